@@ -58,6 +58,8 @@ var (
 	tmpRoot  string
 	// silent: the outcome goes to Coq as a case (model comparison + validator there), so it is not also reported from here
 	silent bool
+	// lastPanic: message of the most recent call that panicked ("" otherwise), one line
+	lastPanic string
 )
 
 // panicKind: a short class of the panic message, so that a recorded finding names one mechanism
@@ -103,6 +105,10 @@ func call(name string, f func([]byte) error, in []byte, deadline time.Duration) 
 	case o = <-ch:
 	case <-time.After(deadline):
 		o = out{ckHang, "deadline exceeded"}
+	}
+	lastPanic = ""
+	if o.class == ckPanic || o.class == ckHang {
+		lastPanic = strings.Join(strings.Fields(o.msg), " ")
 	}
 	s := stats[name]
 	s[o.class]++
@@ -638,8 +644,14 @@ func main() {
 	tier := flag.String("tier", "quick", "tier")
 	ch := flag.String("child", "", "internal: run one crash probe")
 	stage := flag.String("stage", "readers", "readers | sites | decoders")
+	from := flag.Int("from", 0, "internal: first case of a decoders child")
+	stride := flag.Int("stride", 1, "internal: distance between the cases of a decoders child")
 	_ = flag.String("replay", "", "unused: cases are regenerated from the seed")
 	flag.Parse()
+	if *ch == "decoders" {
+		childDecoders(*from, *stride, *seed, *tier)
+		return
+	}
 	if *ch != "" {
 		child(*ch)
 		return
@@ -648,6 +660,8 @@ func main() {
 	switch *stage {
 	case "sites":
 		err = runSites(*out, *seed, *tier)
+	case "decoders":
+		err = runDecoders(*out, *seed, *tier)
 	default:
 		err = run(*out, *seed, *tier)
 	}
